@@ -27,7 +27,7 @@ def run(ctx):
             if isinstance(c, ast.Call) and isinstance(c.func, ast.Attribute) and \
                     c.func.attr == 'convert_prefix_to_multiplier':
                 sites.append((fi, c))
-    floor(ctx, 'convert_prefix_to_multiplier call sites', len(sites), 12)
+    floor(ctx, 'convert_prefix_to_multiplier call sites', len(sites), 5)
     unitspec.storage_pair(ctx, 'C14.R2', 'C14.R2')
     evaluated = set()
     for q in sorted({fi.qualname for fi, c in sites}):
@@ -46,13 +46,7 @@ def run(ctx):
     # ---- R5 unambiguous suffix matching
     for q in ('Unit.parse_quantity', 'Unit.parse_concentration', 'Unit.convert_from'):
         fi = model.func(q)
-        lists = []
-        for n_ in walk_no_nested(fi.node):
-            if isinstance(n_, (ast.List, ast.Tuple)) and n_.elts and \
-                    all(isinstance(e, ast.Constant) and isinstance(e.value, str) for e in n_.elts):
-                vals = [e.value for e in n_.elts]
-                if set(vals) & {'mol', 'g', 'L'} and isinstance(getattr(n_, 'parent', None), (ast.For, ast.Assign)):
-                    lists.append((n_, vals))
+        lists = [(n_, vals) for n_, vals in _string_sequences(model, fi) if len(set(vals) & {'mol', 'g', 'L'}) >= 2]
         if not lists:
             raise AnalysisError(f"{q}: candidate list of base units not found")
         for node, vals in lists:
@@ -74,9 +68,9 @@ def run(ctx):
 
     def str_lists(fi):
         out = set()
-        for n_ in walk_no_nested(fi.node):
-            if isinstance(n_, ast.List) and n_.elts and all(isinstance(e, ast.Constant) and isinstance(e.value, str) for e in n_.elts):
-                out |= {e.value for e in n_.elts}
+        for n_, vals in _string_sequences(model, fi):
+            if len(set(vals) & {'mol', 'g', 'L'}) >= 2:
+                out |= set(vals)
         return out
     returned = (str_lists(pq) | {'U'}) - {'M'}
     handled = str_lists(cf)
@@ -100,6 +94,51 @@ def run(ctx):
                            'string; suffix candidate lists must be unambiguous; a capacity string must not have its '
                            'unit discarded. Not decided: arbitrary malformed input beyond the listed shapes.',
             'exhaustive': False}
+
+
+def _literal_strings(n_):
+    if isinstance(n_, (ast.List, ast.Tuple, ast.Set)) and n_.elts and \
+            all(isinstance(e, ast.Constant) and isinstance(e.value, str) for e in n_.elts):
+        return [e.value for e in n_.elts]
+    return None
+
+
+def _string_sequences(model, fi, depth=1):
+    """Literal sequences of strings a function works with: written in its body, bound to a module- or class-level
+    constant it names, or written in a repo function it calls (one level: an extracted search helper)."""
+    out, seen = [], set()
+
+    def add(node, vals):
+        if id(node) not in seen:
+            seen.add(id(node))
+            out.append((node, vals))
+    consts = {}
+    for n_ in fi.mod.tree.body + (fi.cls.node.body if fi.cls is not None else []):
+        if isinstance(n_, ast.Assign) and len(n_.targets) == 1 and isinstance(n_.targets[0], ast.Name):
+            vals = _literal_strings(n_.value)
+            if vals:
+                consts[n_.targets[0].id] = (n_.value, vals)
+    for n_ in walk_no_nested(fi.node):
+        vals = _literal_strings(n_)
+        if vals:
+            add(n_, vals)
+        name = n_.id if isinstance(n_, ast.Name) else n_.attr if isinstance(n_, ast.Attribute) else None
+        if name in consts and isinstance(getattr(n_, 'ctx', None), ast.Load):
+            add(*consts[name])
+        if depth and isinstance(n_, ast.Call):
+            f = n_.func
+            callee = None
+            if isinstance(f, ast.Attribute) and isinstance(f.value, ast.Name):
+                if f.value.id in model.classes:
+                    callee = model.lookup_method(f.value.id, f.attr)
+                elif f.value.id in ('self', 'cls') and fi.cls is not None:
+                    callee = model.lookup_method(fi.cls.name, f.attr)
+            elif isinstance(f, ast.Name):
+                callee = model.funcs.get(f.id)
+            if callee is not None and callee is not fi:
+                for node, vals in _string_sequences(model, callee, depth - 1):
+                    add(node, vals)
+    return out
 
 
 def scan_unit_function(ctx, q):
